@@ -11,6 +11,7 @@ import (
 	"strconv"
 	"strings"
 	"sync"
+	"sync/atomic"
 	"time"
 
 	dbm "github.com/cometbft/cometbft-db"
@@ -342,6 +343,7 @@ func (s *Scenario) Explore(opt Options) (Stats, []Violation) {
 		// winner[key] = smallest job index that reached key in this level; only (current) winners
 		// keep a snapshot, so duplicate successors cost no memory and the outcome is deterministic
 		winner := map[[32]byte]int64{}
+		var levelBytes int64
 		for wi := range execs {
 			wg.Add(1)
 			go func(e *Exec) {
@@ -389,10 +391,13 @@ func (s *Scenario) Explore(opt Options) (Stats, []Violation) {
 							}
 							mu.Unlock()
 						}
-						if take {
+						// states of the last level are never expanded, and nothing is kept once the level's
+						// snapshots exceed the memory cap (the search then ends with this level)
+						if take && depth < opt.Depth && atomic.LoadInt64(&levelBytes) < memCap {
 							r.snap = e.W.Snapshot()
 							r.m = e.M
 							r.aux = e.Aux
+							atomic.AddInt64(&levelBytes, int64(r.snap.Size())+perNodeOverhead)
 						}
 					}
 					results[ji] = r
@@ -517,6 +522,10 @@ func (s *Scenario) Explore(opt Options) (Stats, []Violation) {
 		st.Replayed += len(toReplay)
 		frontier = nextFrontier
 		st.DepthCompleted = depth
+		if levelBytes >= memCap {
+			st.StoppedBy = fmt.Sprintf("memory cap (%d MB of snapshots in one level) after depth %d", memCap>>20, depth)
+			break
+		}
 		if opt.MaxStates > 0 && st.States >= opt.MaxStates {
 			st.StoppedBy = fmt.Sprintf("state cap %d after depth %d", opt.MaxStates, depth)
 			break
@@ -560,6 +569,17 @@ func divergent(ds []Disc) bool {
 	}
 	return false
 }
+
+// memCap bounds the snapshots kept for one BFS level (VERIF_MEM_CAP_MB, default 6144); reaching it ends a
+// search after the level in progress with exhaustive:false, like a time budget does.
+var memCap = func() int64 {
+	if n, err := strconv.Atoi(os.Getenv("VERIF_MEM_CAP_MB")); err == nil && n > 0 {
+		return int64(n) << 20
+	}
+	return 6144 << 20
+}()
+
+const perNodeOverhead = 48 << 10 // model clone, observation, bookkeeping (measured: 30-60 KB)
 
 func cloneAux(a map[string]int) map[string]int {
 	o := make(map[string]int, len(a))
